@@ -3,7 +3,6 @@ import Gaftools.Props.C06b
 import Gaftools.Props.C06c
 import Gaftools.Props.C06d
 import Gaftools.Props.C06e
-import Gaftools.Props.TieA2
 import Gaftools.Props.C06f
 import Gaftools.Props.C06g
 #print axioms Gaftools.C18.runOrder_ranges
@@ -30,8 +29,6 @@ import Gaftools.Props.C06g
 #print axioms Gaftools.C06.buildScaffold_wf
 #print axioms Gaftools.C06.decompose_ok_stages
 #print axioms Gaftools.C06.decompose_ok_chain
-#print axioms Gaftools.TieA.finishScaffold_gen
-#print axioms Gaftools.TieA.numberChain_gen
 #print axioms Gaftools.C06.scaffold_connected
 #print axioms Gaftools.C06.decompose_ok_chain_full
 #print axioms Gaftools.C06.chainCorrect
